@@ -402,3 +402,72 @@ def check_klatt_open(prop, tier):
         return res.finish(tier)
     finally:
         shutil.rmtree(work, ignore_errors=True)
+
+
+# --------------------------------------------------------------------------- X06: PointObject.getPointsInInterval
+
+def _po_job(job):
+    items, start, workdir = job
+    from praatio.data_classes import data_point
+    out = []
+    for i, (pts, a, b, k, scale, twoD) in enumerate(items):
+        st, ret = "ok", []
+        try:
+            if twoD:
+                po = data_point.PointObject2D([(t * scale, 100.0 + j) for j, t in enumerate(pts)], "PitchTier", 0, (max(pts) if pts else 1) * scale)
+            else:
+                po = data_point.PointObject1D([(t * scale,) for t in pts], "PointProcess", 0, (max(pts) if pts else 1) * scale)
+            r = po.getPointsInInterval(a * scale, b * scale, k)
+            ret = [int(round(x / scale)) if abs(x / scale - round(x / scale)) < 1e-6 else -9 for x in r]
+        except Exception as ex:  # noqa
+            st = type(ex).__name__
+        out.append({"id": start + i, "fam": "pointobj", "op": "pointsInInterval", "pts": pts, "args": {"a": a, "b": b, "k": k}, "st": st, "ret": ret})
+    return out
+
+
+def check_pointobj(prop, tier):
+    import random
+    res = common.Result(prop)
+    work = common.scratch()
+    sz = {"quick": dict(MaxLen=4, VMax=3, rand=3000), "thorough": dict(MaxLen=6, VMax=4, rand=60000)}[tier]
+    try:
+        T.praatio()
+        fn = os.path.join(work, "PointObj.cfg")
+        common.write_cfg(fn, dict(MaxLen=sz["MaxLen"], VMax=sz["VMax"], Emit=True), invariants=["NoFail", "EmitInv"])
+        r = common.run_tlc("PointObj", fn, work, workers=1, timeout=7200)
+        res.add_tlc(r)
+        if common.tlc_failed(r):
+            sys.stderr.write(r["out"][-3000:])
+            raise common.MachineryError("PointObj failed at design level")
+        emitted = common.parse_json_lines(r["out"])
+        res.exhaustive = True
+        items = [(e["pts"], e["args"]["a"], e["args"]["b"], e["args"]["k"], sc, td) for e in emitted for (sc, td) in ((1.0, False), (0.1, True))]
+        rng = random.Random(common.SEED * 53 + 1)
+        for _ in range(sz["rand"]):
+            pts = sorted(rng.randint(0, 30) for _k in range(rng.randint(0, 12)))
+            a, b = sorted([rng.randint(0, 30), rng.randint(0, 30)]) if rng.random() < 0.9 else (rng.randint(0, 30), rng.randint(0, 30))
+            items.append((pts, a, b, rng.randint(0, len(pts)), rng.choice([1.0, 0.1, 0.001]), rng.random() < 0.5))
+        import multiprocessing as mp
+        size = max(1, len(items) // (2 * common.NCPU) + 1)
+        chunks = [(items[i:i + size], i, work) for i in range(0, len(items), size)]
+        with mp.get_context("fork").Pool(common.NCPU) as pool:
+            events = [e for ch in pool.map(common.Guarded(_po_job), chunks) for e in ch]
+        events = common.split_broken(res, prop, events)
+        for i, e in enumerate(events):
+            e["id"] = i
+            res.distinct.add((len(e["pts"]), len(e["ret"]), e["args"]["k"] > 0, e["args"]["a"] <= e["args"]["b"], e["st"]))
+        if events:
+            res.add_sample(events[0])
+            res.add_sample(events[-1])
+        verdicts, nval, cmd = common.validate_traces("Trace_PointObj", events, work)
+        res.cmds.append(cmd)
+        res.traces += nval
+        res.evaluations += len(events)
+        res.judge(events, verdicts, common.load_findings(), lambda c: c.startswith(prop + "_"))
+        res.notes = dict(enumerated=len(emitted), random=sz["rand"])
+        res.assumptions = ["point lists in time order (the scan stops at the first time beyond the interval)"]
+        res.rule = ("every sorted point list up to MaxLen over 0..VMax x every interval x every start index of the TLC model (scan = selection), replayed "
+                    "on PointObject1D/2D under two scalings, plus random longer lists")
+        return res.finish(tier)
+    finally:
+        shutil.rmtree(work, ignore_errors=True)
